@@ -135,8 +135,14 @@ def run(repo: Repo, L: Ledger, tier: str):
             ok5b = bool(pdef) and norm(pdef[0]).replace('"', "'") == f"{wasm.params()[2]}.with_suffix('.agp')"
             why5b = f"AGP companion path is '{norm(pdef[0]) if pdef else None}', expected the FASTA path with suffix .agp"
     L.check(ok5b, "R5", wasm.short + ":pair", "same assembly object streamed and formatted; <fasta>.agp", why5b, wasm.loc())
-    modes = [n for n in walk_shallow(wasm.node) if isinstance(n, ast.Assign) and is_name(n.targets[0], "mode")]
-    okm = len(modes) == 1 and isinstance(modes[0].value, ast.IfExp) and try_fold(modes[0].value.body, default=None) == "b" and "'FASTA'" in norm(modes[0].value.test)
+    # the handle streamed into is opened through the output-handle function with a binary mode for FASTA
+    okm = False
+    hv = norm(ctor[0].args[0]) if ctor and ctor[0].args else None
+    for n in walk_shallow(wasm.node):
+        if isinstance(n, ast.Assign) and hv is not None and norm(n.targets[0]) == hv and isinstance(n.value, ast.Call) and len(n.value.args) >= 3:
+            marg = n.value.args[2]
+            mdefs = [marg] if not isinstance(marg, ast.Name) else [x.value for x in walk_shallow(wasm.node) if isinstance(x, ast.Assign) and is_name(x.targets[0], marg.id)]
+            okm = len(mdefs) == 1 and isinstance(mdefs[0], ast.IfExp) and try_fold(mdefs[0].body, default=None) == "b" and "'FASTA'" in norm(mdefs[0].test)
     L.check(okm, "R5", wasm.short + ":binary", "FASTA handle opened in binary mode", "FASTA output handle is not opened in binary mode", wasm.loc())
 
     # ---- R6
